@@ -359,7 +359,7 @@ func (e *Engine) symbolicOf(st *State, t types.Type, name string, depth int) Val
 	case *types.Array:
 		n := int(u.Len())
 		if n > 16 {
-			return VUnknown{t, name}
+			return VUnknown{Typ: t, Note: name}
 		}
 		fs := make([]Value, n)
 		for i := range fs {
@@ -369,11 +369,11 @@ func (e *Engine) symbolicOf(st *State, t types.Type, name string, depth int) Val
 	case *types.Map:
 		return e.symbolicMap(st, u, name)
 	case *types.Interface:
-		return VUnknown{t, name}
+		return VUnknown{Typ: t, Note: name, ID: e.namedID("unk:" + name)}
 	case *types.Signature:
-		return VUnknown{t, name}
+		return VUnknown{Typ: t, Note: name, ID: e.namedID("unk:" + name)}
 	case *types.Slice:
-		return VUnknown{t, name}
+		return VUnknown{Typ: t, Note: name, ID: e.namedID("unk:" + name)}
 	case *types.Chan:
 		// a channel input may be nil: symbolic flag, deterministic identity per access path
 		id, ok := e.lazyCells["chan:"+name]
@@ -384,7 +384,7 @@ func (e *Engine) symbolicOf(st *State, t types.Type, name string, depth int) Val
 		}
 		return VAbs{Kind: "chan", ID: id, Data: &ChanObj{Name: name, NilT: st.declare("in."+sanitize(name)+".isnil", SBool)}}
 	}
-	return VUnknown{t, name}
+	return VUnknown{Typ: t, Note: name}
 }
 
 func (e *Engine) nextID() int { e.nextSym++; return e.nextSym }
@@ -464,7 +464,7 @@ func (e *Engine) zeroOf(t types.Type) Value {
 	case *types.Array:
 		n := int(u.Len())
 		if n > 64 {
-			return VUnknown{t, "bigarray"}
+			return VUnknown{Typ: t, Note: "bigarray"}
 		}
 		fs := make([]Value, n)
 		for i := range fs {
@@ -495,7 +495,7 @@ func (e *Engine) load(st *State, p VPtr) Value {
 	for _, i := range parsePath(p.Path) {
 		s, ok := v.(VStruct)
 		if !ok || i >= len(s.F) {
-			return VUnknown{nil, "badpath"}
+			return VUnknown{Typ: nil, Note: "badpath"}
 		}
 		v = s.F[i]
 	}
